@@ -161,9 +161,20 @@ func (e *Engine) registerIntrinsics() {
 		c.st.audit = true
 		return c.ret(nil)
 	})
+	r(vnPkg+".WatchWrites", func(c *CallCtx) []Outcome {
+		iv := c.args[0].(IfaceV)
+		switch x := iv.v.(type) {
+		case Ptr:
+			c.st.ghost[fmt.Sprintf("watchw:%d", x.obj)] = tTrue
+		case MapV:
+			c.st.ghost[fmt.Sprintf("watchw:%d", x.obj)] = tTrue
+		}
+		c.st.audit = true
+		return c.ret(nil)
+	})
 	r(vnPkg+".Unwatch", func(c *CallCtx) []Outcome {
 		for k := range c.st.ghost {
-			if strings.HasPrefix(k, "watch:") {
+			if strings.HasPrefix(k, "watch:") || strings.HasPrefix(k, "watchw:") {
 				delete(c.st.ghost, k)
 			}
 		}
